@@ -36,6 +36,7 @@ From GoCoap Require Import Base.Bytes Dedup.Model Server.Model Server.Proofs Ser
 From GoCoap Require Monitor.Model Monitor.Spec Monitor.Proofs.
 From GoCoap Require Import Server.KeepAlive Server.KeepAliveProofs.
 From GoCoap Require Import Server.Addr Server.AddrProofs Server.TokenKey Server.TokenKeyProofs.
+From GoCoap Require Import Server.OptGrow Server.OptGrowProofs Server.Queue.
 Import ListNotations.
 Open Scope Z_scope.
 
@@ -561,3 +562,105 @@ Example C10_token_key_instance :
   /\ told_apart_b TokenKey.crc64 [[18; 52]; [0; 18; 52]; [0; 0; 0; 0; 0; 0; 18; 52]] = true
   /\ told_apart_b packed_key [[18; 52]; [0; 18; 52]] = false.
 Proof. vm_compute. repeat split; reflexivity. Qed.
+
+(* ------------------------------------------------------------------ *)
+(* Round 4: the decode loop between a received message and the connection *)
+(* ------------------------------------------------------------------ *)
+(* message/pool Message.decode (behind UnmarshalWithDecoder, i.e. behind udp/client Conn.Process -- inside the
+   ONE read loop of the udp server -- and tcp/client Session.processBuffer) retries the coder with a larger
+   option table while it reports ErrOptionsTooSmall.  Server/OptGrow.v models the option table WITH its
+   capacity ([unmarshal_opts_cap], [udp_decode_cap]: Options.Unmarshal reports "too small" when the table is
+   full) and the loop ([retry_loop] with the code's [grow] = max(16, 2*cap)).  Model.v's [udp_decode], which
+   all theorems above use, keeps the options in an unbounded list; (i) is the justification. *)
+
+(* (i) "never deadlocks": for EVERY datagram and every capacity the pooled message starts with, the loop ends
+   within 2 + ceil(log2 len) attempts, with exactly what the unbounded decoder returns (ErrOptionsTooSmall never
+   reaches the connection) *)
+Theorem C10_decode_loop_terminates : forall data cap0 fuel, 0 <= cap0 -> (attempts_bound (blen data) <= fuel)%nat ->
+  snd (pool_decode fuel cap0 data) = Some (udp_decode data).
+Proof. exact pool_decode_terminates. Qed.
+Print Assumptions C10_decode_loop_terminates.
+
+Theorem C10_decode_loop_attempts : forall data cap0 fuel, 0 <= cap0 ->
+  (length (fst (pool_decode fuel cap0 data)) <= attempts_bound (blen data))%nat.
+Proof. exact pool_decode_attempts. Qed.
+Print Assumptions C10_decode_loop_attempts.
+
+(* (ii) what a peer can make the server allocate: no table of the loop has more slots than
+   max(16, 2 * len(datagram)), or than the pooled message already had *)
+Theorem C10_decode_loop_memory_bounded : forall data cap0 fuel,
+  Forall (fun c => c <= Z.max cap0 (Z.max 16 (2 * blen data))) (fst (pool_decode fuel cap0 data)).
+Proof. exact pool_decode_caps_bounded. Qed.
+Print Assumptions C10_decode_loop_memory_bounded.
+
+(* (iii) the same for ANY coder that honours the contract "a table of [need] slots is enough, and a result other
+   than too-small does not depend on the capacity" (the tcp coder calls the same Options.Unmarshal:
+   [unmarshal_cap_enough], [unmarshal_cap_sound]) *)
+Theorem C10_decode_loop_any_coder : forall (A : Type) (dec : Z -> cres A) (full : dres A) (need : Z),
+  (forall cap, need <= cap -> dec cap = CR full) -> (forall cap r, dec cap = CR r -> r = full) ->
+  forall cap0 fuel, 0 <= cap0 -> (attempts_bound need <= fuel)%nat ->
+  snd (retry_loop grow dec fuel cap0) = Some full.
+Proof. exact retry_loop_terminates. Qed.
+Print Assumptions C10_decode_loop_any_coder.
+
+Theorem C10_options_table_contract : forall fuel data prev acc processed cap,
+  (blen acc + blen data <= cap ->
+   unmarshal_opts_cap cap fuel data prev acc processed = CR (unmarshal_opts fuel data prev acc processed)) /\
+  (forall r, unmarshal_opts_cap cap fuel data prev acc processed = CR r -> unmarshal_opts fuel data prev acc processed = r).
+Proof.
+  intros. split; [apply unmarshal_cap_enough|intros r H; exact (unmarshal_cap_sound _ _ _ _ _ _ _ H)].
+Qed.
+Print Assumptions C10_options_table_contract.
+
+(* contrast (NOT the code): growth with a ceiling of 1024 slots and the same unconditional retry never returns
+   for a datagram of 1100 empty options -- whatever number of attempts is allowed; the code's loop decodes it in
+   9 attempts (0, 16, ..., 1024, 2048) *)
+Theorem C10_capped_growth_would_spin : forall fuel,
+  snd (retry_loop (grow_capped 1024) (fun cap => udp_decode_cap cap (flood 1100)) fuel 0) = None.
+Proof. exact capped_growth_spins. Qed.
+Print Assumptions C10_capped_growth_would_spin.
+
+Example C10_decode_loop_instance :
+  pool_decode 20 0 (flood 1100) = ([0; 16; 32; 64; 128; 256; 512; 1024; 2048], Some (udp_decode (flood 1100))).
+Proof. exact flood_1100_decoded. Qed.
+
+(* ------------------------------------------------------------------ *)
+(* Round 4: the received-message queue between Conn.Process and the handler *)
+(* ------------------------------------------------------------------ *)
+(* Server/Queue.v: the datagrams of one remote address go socket -> read loop (Process, which ends with a BLOCKING
+   send) -> channel of ReceivedMessageQueueSize slots -> the connection's reader loop -> handler.
+   "in arrival order", for ALL schedules of the two loops and every queue size: *)
+Theorem C10_queue_arrival_order : forall size arrivals evs,
+  let s := qrun size arrivals evs in q_done s ++ q_chan s ++ q_sock s = arrivals.
+Proof. exact queue_in_order. Qed.
+Print Assumptions C10_queue_arrival_order.
+
+(* what the application has seen is a prefix of what arrived, at every moment; and everything once both are empty *)
+Theorem C10_queue_handled_is_prefix : forall size arrivals evs,
+  exists rest, arrivals = q_done (qrun size arrivals evs) ++ rest.
+Proof. exact queue_handled_prefix. Qed.
+Print Assumptions C10_queue_handled_is_prefix.
+
+Theorem C10_queue_complete : forall size arrivals evs,
+  q_sock (qrun size arrivals evs) = [] -> q_chan (qrun size arrivals evs) = [] -> q_done (qrun size arrivals evs) = arrivals.
+Proof. exact queue_complete. Qed.
+Print Assumptions C10_queue_complete.
+
+(* the two loops never wait for each other for good: while something is left one of them can move *)
+Theorem C10_queue_no_deadlock : forall size s, (0 < size)%nat -> q_sock s <> [] \/ q_chan s <> [] ->
+  qstep size s QHandle <> s \/ qstep size s QRead <> s.
+Proof. exact queue_progress. Qed.
+Print Assumptions C10_queue_no_deadlock.
+
+(* contrast (NOT the code): a read loop that hands the overflow to goroutines of their own instead of waiting has a
+   schedule in which the application sees 0, 2, 1 *)
+Theorem C10_spilling_read_loop_would_reorder :
+  exists evs, let s := spill_run 1 [0; 1; 2] evs in
+    sp_sock s = [] /\ sp_chan s = [] /\ sp_spill s = [] /\ sp_done s = [0; 2; 1].
+Proof. exact spilling_read_loop_reorders. Qed.
+Print Assumptions C10_spilling_read_loop_would_reorder.
+
+Example C10_queue_instance :
+  q_done (qrun 2 [10; 11; 12; 13; 14] [QRead; QRead; QRead; QHandle; QRead; QHandle; QRead; QRead; QHandle; QHandle; QRead; QHandle])
+  = [10; 11; 12; 13; 14].
+Proof. vm_compute. reflexivity. Qed.
